@@ -178,7 +178,11 @@ func (o *Obligation) Query2() (string, []string, []*Term) {
 		ctr := 0
 		var sks []*Term
 		ng := negSkolemC(o.Goal, &ctr, &sks)
+		tI := time.Now()
 		insts, gens := instantiate(as, ng, sks, ex.lowPrio)
+		if os.Getenv("GOVC_DEBUG_TIME") != "" {
+			fmt.Fprintf(os.Stderr, "instantiate %s %.2fs %d insts\n", o.Name, time.Since(tI).Seconds(), len(insts))
+		}
 		anyQ := false
 		for _, h := range as {
 			sh := stripQuant(h)
@@ -544,7 +548,39 @@ func (V *Verifier) solveRendered(o *Obligation, pass int) {
 		} else {
 			done := false
 			if pass == 2 {
-				res = V.portfolio(file)
+				// retry the deepest instance-only variant on the now quiet machine, racing the portfolio
+				type rr struct {
+					res solveResult
+					ok  bool
+				}
+				ch := make(chan rr, 2)
+				go func() { ch <- rr{V.portfolio(file), true} }()
+				nl := 0
+				if len(r.light) > 0 {
+					nl = 1
+					go func() {
+						T := time.Duration(V.opts.Timeout) * time.Second
+						lfile := strings.TrimSuffix(file, ".smt2") + ".lightR.smt2"
+						os.WriteFile(lfile, []byte(r.light[len(r.light)-1]), 0644)
+						st, out, el := runSolver(context.Background(), "z3-new", []string{fmt.Sprintf("-T:%d", int(T.Seconds()))}, lfile, T)
+						if !V.opts.KeepSMT {
+							os.Remove(lfile)
+						}
+						if st == "unsat" {
+							ch <- rr{solveResult{st, "z3-new/instR", el, out}, true}
+						} else {
+							ch <- rr{solveResult{"unknown", "none", el, out}, false}
+						}
+					}()
+				}
+				first := <-ch
+				if nl == 1 && !(first.res.status == "sat" || first.res.status == "unsat") {
+					second := <-ch
+					if second.res.status == "sat" || second.res.status == "unsat" {
+						first = second
+					}
+				}
+				res = first.res
 				res.time += o.Time
 				done = true
 			}
@@ -702,7 +738,30 @@ func instantiate(hyps []*Term, goal *Term, sks []*Term, lowPrio map[*Term]bool) 
 // with explicit :pattern annotations and the at() index wrapper).
 var useMatcher = true
 
+type patInfo struct {
+	sc      *substCtx
+	pats    []*Term
+	full    []*Term
+	partial []*Term
+}
+
+func selRoot(t *Term) (*Term, int) {
+	d := 0
+	for t.Op == "select" {
+		t = t.Args[0]
+		d++
+	}
+	return t, d
+}
+
+type rootKey struct {
+	root  *Term
+	depth int
+}
+
 type instCtx struct {
+	byRoot     map[rootKey][]*Term
+	patCache   map[*Term]*patInfo
 	perRound   int
 	ground     []*Term // ground select terms
 	groundSeen map[*Term]bool
@@ -744,6 +803,11 @@ func (ic *instCtx) harvest(t *Term) {
 		if !has && t.Op == "select" && !ic.groundSeen[t] {
 			ic.groundSeen[t] = true
 			ic.ground = append(ic.ground, t)
+			r, d := selRoot(t)
+			if ic.byRoot == nil {
+				ic.byRoot = map[rootKey][]*Term{}
+			}
+			ic.byRoot[rootKey{r, d}] = append(ic.byRoot[rootKey{r, d}], t)
 		}
 		if len(bound) == 0 {
 			memo[t] = has
@@ -820,6 +884,11 @@ func (ic *instCtx) instForall(h *Term, guard *Term) {
 	memo := map[*Term]bool{}
 	// maximal select-terms over the bound variables (as E-matching triggers would be chosen)
 	var pats []*Term
+	var full, partial []*Term
+	if ic.patCache == nil {
+		ic.patCache = map[*Term]*patInfo{}
+	}
+	cached := ic.patCache[h]
 	pseen := map[*Term]bool{}
 	var rec func(t *Term, inner map[*Term]bool, under bool)
 	rec = func(t *Term, inner map[*Term]bool, under bool) {
@@ -853,7 +922,9 @@ func (ic *instCtx) instForall(h *Term, guard *Term) {
 			rec(a, ni, under || isPat)
 		}
 	}
-	rec(body, map[*Term]bool{}, false)
+	if cached == nil {
+		rec(body, map[*Term]bool{}, false)
+	}
 	varsOf := func(t *Term) map[*Term]bool {
 		out := map[*Term]bool{}
 		for v := range vars {
@@ -865,17 +936,22 @@ func (ic *instCtx) instForall(h *Term, guard *Term) {
 		return out
 	}
 	var results []map[*Term]*Term
-	var full, partial []*Term
-	for _, p := range pats {
-		if len(varsOf(p)) == len(vars) {
-			full = append(full, p)
-		} else {
-			partial = append(partial, p)
+	if cached == nil {
+		for _, p := range pats {
+			if len(varsOf(p)) == len(vars) {
+				full = append(full, p)
+			} else {
+				partial = append(partial, p)
+			}
 		}
+		cached = &patInfo{newSubstCtx(h.Vars), pats, full, partial}
+		ic.patCache[h] = cached
+	} else {
+		pats, full, partial = cached.pats, cached.full, cached.partial
 	}
 	if useMatcher {
 		for _, p := range full {
-			for _, g := range ic.ground {
+			for _, g := range ic.candidates(p, vars) {
 				if g.S != p.S {
 					continue
 				}
@@ -922,7 +998,7 @@ func (ic *instCtx) instForall(h *Term, guard *Term) {
 					}
 					return
 				}
-				for _, g := range ic.ground {
+				for _, g := range ic.candidates(mp[k], vars) {
 					if g.S != mp[k].S {
 						continue
 					}
@@ -958,7 +1034,7 @@ func (ic *instCtx) instForall(h *Term, guard *Term) {
 			continue
 		}
 		dedup[key] = true
-		g := Implies(guard, Subst(body, b))
+		g := Implies(guard, SubstWith(cached.sc, body, b))
 		if g == True || ic.seenInst[g] {
 			continue
 		}
@@ -1013,7 +1089,7 @@ func (ic *instCtx) instForall(h *Term, guard *Term) {
 		for i, v := range h.Vars {
 			m[v] = lists[i][idx[i]]
 		}
-		ic.emit(Implies(guard, Subst(body, m)))
+		ic.emit(Implies(guard, SubstWith(cached.sc, body, m)))
 		k := len(h.Vars) - 1
 		for k >= 0 {
 			idx[k]++
@@ -1027,6 +1103,17 @@ func (ic *instCtx) instForall(h *Term, guard *Term) {
 			break
 		}
 	}
+}
+
+// candidates: ground select-terms that can possibly match pattern p (same root array and nesting depth
+// when the pattern's root is ground).
+func (ic *instCtx) candidates(p *Term, vars map[*Term]bool) []*Term {
+	r, d := selRoot(p)
+	m := map[*Term]bool{}
+	if containsAny(r, vars, m) {
+		return ic.ground
+	}
+	return ic.byRoot[rootKey{r, d}]
 }
 
 // unify matches pattern p (with variables vars) against ground term g, extending binding b.
